@@ -56,3 +56,30 @@ ENTRY int verif_iso_unset(char* out) {
     std::memcpy(out, s.c_str(), s.size() + 1);
     return static_cast<int>(s.size());
 }
+
+// ---- integer attributes
+// kind: 0 object_id_type (int64), 1 changeset_id_type (uint32), 2 object_version_type (uint32), 3 user_id_type (uint32), 4 int32
+// rc 0: *out = value, *consumed; 1 opl_error
+ENTRY int verif_opl_int(int kind, const char* s, long* out, int* consumed) {
+    const char* p = s;
+    try {
+        switch (kind) {
+            case 0: *out = osmium::io::detail::opl_parse_int<osmium::object_id_type>(&p); break;
+            case 1: *out = static_cast<long>(osmium::io::detail::opl_parse_int<osmium::changeset_id_type>(&p)); break;
+            case 2: *out = static_cast<long>(osmium::io::detail::opl_parse_int<osmium::object_version_type>(&p)); break;
+            case 3: *out = static_cast<long>(osmium::io::detail::opl_parse_int<osmium::user_id_type>(&p)); break;
+            default: *out = osmium::io::detail::opl_parse_int<int32_t>(&p); break;
+        }
+        *consumed = static_cast<int>(p - s);
+        return 0;
+    } catch (const osmium::opl_error&) { return 1; }
+}
+
+// what: 0 string_to_object_id, 1 string_to_object_version / changeset_id / uid (detail::string_to_ulong).  rc 0 value, 1 std::range_error
+ENTRY int verif_string_to_number(int what, const char* s, long* out) {
+    try {
+        if (what == 0) *out = osmium::string_to_object_id(s);
+        else *out = static_cast<long>(osmium::detail::string_to_ulong(s, "value"));
+        return 0;
+    } catch (const std::range_error&) { return 1; }
+}
